@@ -247,6 +247,113 @@ def scripted_case(case, common, out):
         shutil.rmtree(tmp, ignore_errors=True)
 
 
+# ---------------------------------------------------------------------------------------------
+# staged sessions: collections that are KEPT while other things happen (a rewrite of the files behind a source whose
+# name does not capture its data; more than ten other sort plans), then observed
+# ---------------------------------------------------------------------------------------------
+def write_csv(d, shift=0):
+    os.makedirs(d, exist_ok=True)
+    for i in range(3):
+        a = (np.arange(20) * 7 + i * 3) % 60 + shift
+        pd.DataFrame({"a": a, "b": np.arange(20) * 0.5 + i + shift}).to_csv(os.path.join(d, f"part{i}.csv"), index=False)
+
+
+def _csv_load(path):
+    return pd.read_csv(path)
+
+
+def pool_staged(d):
+    """d: directory of the csv files.  from_map over file paths: the expression name is a function of the paths, not of the
+    files' contents; persist() imports the computed partitions under keys derived from that name."""
+    import dask_expr as dx
+
+    big, _ = _frames()
+    df = lambda: dx.from_pandas(big, npartitions=4)  # noqa: E731
+    paths = [os.path.join(d, f"part{i}.csv") for i in range(3)]
+    P = {
+        "csv_persisted": lambda: dx.from_map(_csv_load, paths).persist(),
+        "csv_persisted_set_index": lambda: dx.from_map(_csv_load, paths).persist().set_index("a"),
+        "csv_persisted_sorted": lambda: dx.from_map(_csv_load, paths).persist().sort_values("b"),
+        # an optimized-but-unfused plan is a collection like any other: it may be kept and used later
+        "set_index_a_unfused_plan": lambda: df().set_index("a").optimize(fuse=False),
+        "sort_a_unfused_plan": lambda: df().sort_values("a").optimize(fuse=False),
+    }
+    for k in range(5, 18):  # thirteen further sort plans on the same column, each with its own cache key
+        P[f"set_index_a_np{k}"] = lambda k=k: df().set_index("a", npartitions=k)
+    return P
+
+
+OTHERS = [("run", f"set_index_a_np{k}") for k in range(5, 18)]
+STAGED = {
+    # (action, query): keep = build and hold a reference; observe = build afresh and compare with a fresh interpreter;
+    # observe-kept = compare the held collection; run = build, optimize, compute, let go; rewrite = new file contents
+    "persisted-source-reread-after-rewrite-while-the-first-is-alive": [("keep", "csv_persisted"), ("observe", "csv_persisted"), ("rewrite", None), ("observe", "csv_persisted"), ("observe", "csv_persisted_set_index")],
+    "persisted-source-sorted-before-and-after-rewrite": [("observe", "csv_persisted_set_index"), ("observe", "csv_persisted_sorted"), ("rewrite", None), ("observe", "csv_persisted_set_index"), ("observe", "csv_persisted_sorted")],
+    "kept-set_index-plan-after-thirteen-other-sort-plans": [("keep", "set_index_a_unfused_plan"), *OTHERS, ("observe-kept", "set_index_a_unfused_plan")],
+    "kept-sort-plan-after-thirteen-other-sort-plans": [("keep", "sort_a_unfused_plan"), *OTHERS, ("observe-kept", "sort_a_unfused_plan")],
+}
+
+
+def staged_case(case, common, out):
+    from vf.rt.pool import bump, viol
+
+    sname = case
+    tmp = tempfile.mkdtemp(prefix="verif_c15g_")
+    replay = {"kind": "call", "module": "vf.props.C15", "func": "replay_staged", "args": {"name": sname}}
+    try:
+        d = os.path.join(tmp, "csv")
+        write_csv(d, 0)
+        P = pool_staged(d)
+        live, hist = {}, []
+        with warnings.catch_warnings():
+            warnings.simplefilter("ignore")
+            for action, n in STAGED[sname]:
+                hist.append(f"{action}:{n}" if n else action)
+                sig = f"script={sname}|query={n}|history={'>'.join(hist[-8:])}"
+                if action == "rewrite":
+                    write_csv(d, 1000)
+                    continue
+                if action == "keep":
+                    live[n] = P[n]()
+                    continue
+                if action == "run":
+                    try:
+                        q = P[n]()
+                        q.optimize()
+                        q.compute()
+                        del q
+                    except Exception as ex:
+                        viol(out, "C15.R.staged:raises-depending-on-history", sig, f"{type(ex).__name__}: {str(ex)[:160]}", replay)
+                    gc.collect()
+                    continue
+                # the same query alone in a fresh interpreter, on the files as they are NOW
+                base = baseline(d, [n], poolfn="pool_staged")[n]
+                try:
+                    got = observe(live[n] if action == "observe-kept" else P[n]())
+                except Exception as ex:
+                    viol(out, "C15.R.staged:raises-depending-on-history", sig, f"{type(ex).__name__}: {str(ex)[:160]}", replay)
+                    continue
+                gc.collect()
+                bump(out, "C15.R.staged:observation==fresh-interpreter", f"{sname}|{len(hist)}", rule="fixed sessions with KEPT collections: a persisted from_map-over-files query re-read after the files were rewritten (first persist alive / let go), an unfused set_index / sort_values plan kept across thirteen other sort plans; each observation against the same query alone in a fresh interpreter")
+                for field in ("divisions", "logical_divisions", "len", "nrows", "result"):
+                    if got.get(field) != base.get(field):
+                        viol(out, f"C15.R.staged:{field}-depends-on-history", sig, f"fresh interpreter: {str(base.get(field))[:120]}; inside the session: {str(got.get(field))[:120]}", replay)
+                        break
+    finally:
+        shutil.rmtree(tmp, ignore_errors=True)
+
+
+def replay_staged(name):
+    from vf.rt.pool import _init
+
+    _init()
+    out = {"counts": {}, "violations": [], "samples": [], "errors": [], "notes": {}}
+    staged_case(name, {}, out)
+    for v in out["violations"]:
+        print(v["contract"], "|", v["signature"], "|", v["detail"][:300])
+    return bool(out["violations"])
+
+
 def replay_script(name):
     out = {"counts": {}, "violations": [], "samples": [], "errors": [], "notes": {}}
     scripted_case(name, {}, out)
@@ -430,6 +537,7 @@ def run(run):
         # plan names of parquet queries contain the path: give every session the SAME path, sequentially per worker
         run_cases(run, "vf.props.C15", "session_case_samepath", [(s, 90 if run.tier == "quick" else 160) for s in seeds], common, chunk=1)
         run_cases(run, "vf.props.C15", "scripted_case", list(SCRIPTS), {}, chunk=1)
+        run_cases(run, "vf.props.C15", "staged_case", list(STAGED), {}, chunk=1)
     finally:
         shutil.rmtree(tmp, ignore_errors=True)
     run.assume("fault sequences are only PRESENT in the workload (a failing user function, a dataset rewrite), not enumerated; garbage collection of the Expr._instances weak table is exercised, not proved")
